@@ -175,6 +175,10 @@ class Compiler:
             return ('cast', op, s.operand_type(body, op, m.group(1)), strip_lifetimes(m.group(2)), m.group(3))
         if t.startswith(('copy ', 'move ', 'const ', 'no_retag ')):
             return ('use', s.operand(body, t))
+        # a function item turned into a function pointer: `path::to::f as for<'a> fn(..) -> .. (PointerCoercion(ReifyFnPointer(..), ..))`
+        m = re.match(r'^(.*?) as (?:for<[^>]*> )?(?:unsafe )?(?:extern "[^"]*" )?fn\(.*\((?:PointerCoercion\()?(?:ReifyFnPointer|ClosureFnPointer).*\)$', t, re.S)
+        if m and balanced(m.group(1)) and not m.group(1).startswith(('copy ', 'move ')):
+            return s.rvalue(body, m.group(1))
         if t.startswith('&'):
             m = re.match(r'^&(raw const |raw mut |mut |fake shallow |fake )?(.*)$', t)
             return ('ref', s.place(m.group(2)))
